@@ -608,6 +608,8 @@ def reduce_case(case: dict, sig: str, max_evals: int = 70) -> dict:
         # one pass: try deleting every statement (largest first), re-parsing after each success
         cands = []
         for n in ast.walk(tree):
+            if isinstance(n, ast.FunctionDef) and n.name == "__init__":
+                continue  # an attribute that is declared but never set is a run-time failure mypy does not claim to catch
             for fld in ("body", "orelse", "finalbody"):
                 sub = getattr(n, fld, None)
                 if isinstance(sub, list) and sub and isinstance(sub[0], ast.stmt):
